@@ -1639,8 +1639,8 @@ class Frame(object):
                 if r is not None:
                     return r
                 return Sym('%s(%s)' % (n, self._argtext(args, kwargs)))
-            if isinstance(callee, ClassV):
-                # a local bound to a class (k = A if c else B; k()): the call constructs that class
+            if isinstance(callee, ClassV) and n not in self.fi.params:
+                # a local (not a parameter such as `cls`) bound to a class (k = A if c else B; k()): the call constructs that class
                 record(callee.ci.name)
                 return self._construct(callee.ci, args, kwargs, st, node)
             if n in ('bytearray', 'bytes'):
